@@ -4,8 +4,8 @@ from pyvc import spec as SP
 from pyvc.sym import Sym
 
 META = {
-    "explanation": "intdiv proved for all integers; integer scaling, negation, addition and subtraction of equilibria proved (net stoichiometry, positivity, netted form, side swap, constant = product of powers) for every coefficient and constant at fixed key layouts that include species on opposite sides and shared species; cancel and as_reactions likewise; the induction over operation histories is the Lean lemma history_invariant",
-    "trusted_base": ["pow(K, n) axioms (5.3)", "Lean lemma history_invariant (lemmas/C11_history.lean): correspondence to the Python spec by inspection"],
+    "explanation": "intdiv proved for all integers; integer scaling, negation, addition and subtraction of equilibria proved (net stoichiometry, positivity, netted form, side swap, constant = product of powers) for every coefficient and constant at fixed key layouts that include species on opposite sides and shared species; cancel and as_reactions likewise; the induction over operation histories is the Lean lemma pair nu_eq_combination / const_eq_product_of_powers (lemmas/C11_history.lean); two- and three-step expressions are also proved directly on the code",
+    "trusted_base": ["pow(K, n) axioms (5.3)", "Lean 4 kernel + Mathlib for lemmas/C11_history.lean (re-checked on every run, C11.lemma.*): for any expression over any number of operands, net stoichiometry = sum_i c_i nu_i and constant = prod_i K_i^c_i, given that one scaling/addition/subtraction acts as proved in C11.scale/add/sub; the correspondence between `EqExpr.nu/const` and those obligations is by inspection"],
     "not_decided": ["Equilibrium.eliminate: the common multiple comes from sympy.primefactors (bounded stand-in, exhaustive on [-60,60]^2)"],
     "assumptions": ["key layouts fixed per harness (shape-bounded)", "scaling by a non-zero integer (scaling by 0 lists zero coefficients: outside 'every listed coefficient positive')"],
 }
@@ -77,9 +77,8 @@ def _scale(name, lay):
             v.prove(label + ".net", SP.conj([netof(r.reac, r.prod, k) == n * netof(reac, prod, k) for k in keys]))
             v.prove(label + ".positive", SP.conj([c > 0 for c in list(r.reac.values()) + list(r.prod.values())]))
             an = SP.ite(n < 0, -n, n)
-            if v.symbolic:
-                pos = n > 0
-                v.prove(label + ".sides", SP.ite(pos, True, False) == pos)
+            # which species are listed on which side: a negative factor reverses the reaction (no extra keys on either side)
+            v.prove(label + ".sides", SP.ite(n > 0, set(r.reac) == set(reac) and set(r.prod) == set(prod), set(r.reac) == set(prod) and set(r.prod) == set(reac)))
             v.prove(label + ".coefficients", SP.conj([SP.ite(n > 0, r.reac.get(k, 0), r.prod.get(k, 0)) == an * c for k, c in reac.items()] +
                                                      [SP.ite(n > 0, r.prod.get(k, 0), r.reac.get(k, 0)) == an * c for k, c in prod.items()]))
             v.prove(label + ".constant", v.eq(r.param, _pow(K, n)))
@@ -169,3 +168,73 @@ def _(v):
     v.prove("both_given_raises", out.raised(ValueError))
     out = v.run(e.as_reactions)
     v.prove("none_given_raises", out.raised(ValueError))
+
+
+@harness("C11", "lemma", functions=["lemmas/C11_history.lean: EqExpr.nu_eq_combination, EqExpr.const_eq_product_of_powers"], kind="lemma", samples=0)
+def _(v):
+    """induction over operation histories, checked by the Lean kernel on every run (no sorry/axiom: scanned)"""
+    v.prove_lean("history_of_operations_any_length", "lemmas/C11_history.lean", theorems=("nu_eq_combination", "const_eq_product_of_powers"))
+
+
+@harness("C11", "composed_expressions", functions=[CH + ":Equilibrium.__rmul__", CH + ":Equilibrium.__add__", CH + ":Equilibrium.__sub__", CH + ":Equilibrium.__neg__"], kind="shape-bounded", div_mode="assume", samples=20)
+def _(v):
+    """several operations in a row on the real objects (operands with a species on BOTH sides included): net stoichiometry is the same integer
+    combination, the listing is netted and positive, and the constant is the product of powers"""
+    from chempy.chemistry import Equilibrium
+    K1, K2 = v.real("K1", lo=0.01, hi=50), v.real("K2", lo=0.01, hi=50)
+    a1, b1, c1 = v.int("a1", lo=1, hi=4), v.int("b1", lo=1, hi=4), v.int("c1", lo=1, hi=4)
+    e1 = Equilibrium({"A": a1 + 1, "B": b1}, {"A": 1, "C": c1}, K1, checks=())      # A on both sides of one operand
+    e2 = Equilibrium({"C": 1}, {"A": 2, "D": 1}, K2, checks=())
+    n1 = {"A": -a1, "B": -b1, "C": c1, "D": 0}
+    n2 = {"A": 2, "B": 0, "C": -1, "D": 1}
+    for label, build, (x, y) in (("2e1_plus_3e2_minus_e1", lambda: v.call(v.call(v.call(e1.__rmul__, 2).__add__, v.call(e2.__rmul__, 3)).__sub__, e1), (1, 3)),
+                                 ("minus_e1_plus_2e2_plus_2e1", lambda: v.call(v.call(v.call(e1.__neg__).__add__, v.call(e2.__rmul__, 2)).__add__, v.call(e1.__rmul__, 2)), (1, 2)),
+                                 ("neg_of_difference", lambda: v.call(v.call(e1.__sub__, e2).__neg__), (-1, 1))):
+        r = build()
+        want = {k: x * n1[k] + y * n2[k] for k in "ABCD"}
+        v.prove(label + ".net", SP.conj([netof(r.reac, r.prod, k) == want[k] for k in "ABCD"]))
+        v.prove(label + ".netted_and_positive", (not (set(r.reac) & set(r.prod))) and SP.conj([c > 0 for c in list(r.reac.values()) + list(r.prod.values())]))
+        v.prove(label + ".present_iff_nonzero", SP.conj([SP.iff((k in r.reac) or (k in r.prod), SP.neg(want[k] == 0)) for k in "ABCD"]))
+        if v.symbolic:
+            lhs, rhs = r.param, 1
+            for K, e in ((K1, x), (K2, y)):
+                if e >= 0:
+                    rhs = rhs * K ** e
+                else:
+                    lhs = lhs * K ** (-e)
+            v.prove_identity(label + ".constant", lhs, rhs)
+        else:
+            v.prove(label + ".constant", v.eq(r.param, K1 ** x * K2 ** y, rel=1e-9))
+
+
+@harness("C11", "eliminate.pairs", functions=[CH + ":Equilibrium.eliminate"], kind="data")
+def _(v):
+    """'for two equilibria that both involve a species, the elimination helper returns non-zero integer multipliers whose combination contains
+    none of that species': all pairs of net coefficients in [-12, 12] with the species on one or on both sides (the larger grid is the bounded
+    stand-in); the combination is formed with the real operators"""
+    from fractions import Fraction as Fr
+    from chempy.chemistry import Equilibrium
+    bad = []
+    n = 0
+    for v0 in range(-12, 13):
+        for v1 in range(-12, 13):
+            if v0 == 0 or v1 == 0:
+                continue
+            for both in (False, True):
+                extra = 2 if both else 0
+                mk = lambda vv, other, K: Equilibrium({"X": extra + (-vv if vv < 0 else 0), other: 1} if (vv < 0 or extra) else {other: 1},
+                                                      {"X": extra + (vv if vv > 0 else 0), other + "p": 1} if (vv > 0 or extra) else {other + "p": 1}, K, checks=())
+                e0, e1 = mk(v0, "P", Fr(3, 2)), mk(v1, "Q", Fr(5, 7))
+                n += 1
+                try:
+                    m0, m1 = Equilibrium.eliminate([e0, e1], "X")
+                    ok = int(m0) == m0 and int(m1) == m1 and m0 != 0 and m1 != 0 and m0 * v0 + m1 * v1 == 0
+                    if ok and abs(v0) <= 3 and abs(v1) <= 3:
+                        comb = int(m0) * e0 + int(m1) * e1
+                        ok = "X" not in comb.reac and "X" not in comb.prod and comb.param == Fr(3, 2) ** int(m0) * Fr(5, 7) ** int(m1)
+                except Exception as ex:
+                    ok = False
+                    m0 = m1 = repr(ex)
+                if not ok:
+                    bad.append((v0, v1, both, m0, m1))
+    v.prove("multipliers_eliminate_the_species", not bad and n == 2 * 24 * 24, detail="%d bad of %d: %s" % (len(bad), n, bad[:5]))
